@@ -2,9 +2,9 @@ package main
 
 import (
 	"fmt"
-	"os"
 	"go/token"
 	"go/types"
+	"os"
 	"sort"
 	"strings"
 
@@ -61,7 +61,7 @@ type bndResult struct {
 
 // allow-listed aborts / assertions: one named symbol each, with the reason.
 var abortAllow = map[string]string{
-	"(*pkg/statsd.DatagramParser).handleDatagram:abort:Panic#1":                                 "unreachable: Lexer.Run returns a metric or an event whenever it returns no error (lexSpecial allocates l.m, lexDatadogSpecial allocates l.e before any accept exit; C02.R5/R6 pin the accept exits)",
+	"(*pkg/statsd.DatagramParser).handleDatagram:abort:Panic#1":                               "unreachable: Lexer.Run returns a metric or an event whenever it returns no error (lexSpecial allocates l.m, lexDatadogSpecial allocates l.e before any accept exit; C02.R5/R6 pin the accept exits)",
 	"(*pkg/statsd.GenericBatchReader).ReadBatch:abort:panic(\"attempt to read 0 packets\")#1": "start-up configuration error (receive-batch-size 0), not reachable from network input: guarded by len(ms) == 0 and the batch slice has the configured size (assumption receiveBatchSize >= 1)",
 }
 
@@ -178,8 +178,8 @@ func obKeyNoGenerics(k string) string {
 }
 
 var assertLemmas = map[string]string{
-	"(*internal/pool.DatagramBufferPool).Get:assert:call((*sync.Pool).Get).(*[][]byte)#1":  "pool-shape",
-	"(*internal/pool.MetricPool).Get:assert:call((*sync.Pool).Get).(*gostatsd.Metric)#1":   "pool-shape",
+	"(*internal/pool.DatagramBufferPool).Get:assert:call((*sync.Pool).Get).(*[][]byte)#1":     "pool-shape",
+	"(*internal/pool.MetricPool).Get:assert:call((*sync.Pool).Get).(*gostatsd.Metric)#1":      "pool-shape",
 	"(*pkg/backends/sender.Sender).GetBuffer:assert:call((*sync.Pool).Get).(*bytes.Buffer)#1": "pool-shape",
 }
 
